@@ -121,7 +121,9 @@ RULE = ("serial calls only (parallel=False). STOCH cases: bounded-rate event mod
 ASSUMPTIONS = ["'different seeds change the outputs' is runtime: numpy maps different seeds to streams whose first consumed draws differ; "
                "checked on raw (scalar-horizon) stochastic output with >= 20 recorded events and a coincidence probability < 1e-12 "
                "computed from the recorded run (a continuous draw, or the product of the Poisson pmfs of the recorded counts), and "
-               "on random-parameter runs whose integrations depend on the drawn values",
+               "on random-parameter runs whose integrations depend on the drawn values (with integer-valued samplers - rpois, rbinom, "
+               "rnbinom - in the dict: only when they depend on a continuously drawn value, two seeds give the same integer variate with "
+               "positive probability)",
                "numpy's generator is a deterministic function of its state (its law is C05's concern)",
                "the integrator is a deterministic function of (parameters, initial values, times) (C02)",
                "IEEE double vs exact rational arithmetic: Poisson means / exponential scales compared to 1e-11 / 1e-12 relative, "
@@ -468,6 +470,7 @@ def rnbinom_w(n, size, prob, scale):
     return utilR.rnbinom(n, size, prob) * scale
 
 
+DISCRETE_SAMPLERS = ("rpois_w", "rbinom_w", "rnbinom_w")
 LOCAL_SAMPLERS = {"hunif": hunif, "rchisq_w": rchisq_w, "rbeta_w": rbeta_w, "rpois_w": rpois_w, "rbinom_w": rbinom_w, "rnbinom_w": rnbinom_w}
 
 
@@ -1170,7 +1173,7 @@ def _run_param(case):
         mm("global-generator-accounting", b)
 
     # ---- the Lean model on the recorded values; integrator = reference integrations at the parameter vectors the stream yields
-    sensitive = False
+    sensitive, sensitive_cont = False, True
     rand_entries = [e for e in case["pdict"] if e["kind"] != "fixed"]
     kk = len(rand_entries)
     if finite and all(s_[0] == "param" and s_[2] is not None for s_ in body) and kk and len(body) % kk == 0:
@@ -1222,6 +1225,20 @@ def _run_param(case):
                     mm("params-after-call", "model %s code %s" % ([float(Fraction(v)) for v in r["cur"]], after))
             sols = [np.array([[float(Fraction(v)) for v in row] for row in t_["sol"]]) for t_ in table]
             sensitive = any(not np.array_equal(sols[0], s_) for s_ in sols[1:])
+            # "another seed, another output" has probability one only when the output depends on a CONTINUOUS draw (two seeds give
+            # the same Poisson / binomial variate with positive probability): with integer-valued samplers in the dict the rule is
+            # applied only if moving the continuously drawn parameters moves the reference integration
+            if sensitive and any(e.get("sampler") in DISCRETE_SAMPLERS for e in rand_entries):
+                cont = [names.index(e["name"]) for e in rand_entries if e.get("sampler") not in DISCRETE_SAMPLERS]
+                sensitive_cont = False
+                if cont:
+                    v2 = list(vecs[0])
+                    for i_ in cont:
+                        v2[i_] = v2[i_] * 1.07
+                    mref.parameters = {nm: float(v) for nm, v in zip(names, v2)}
+                    sol2, err2 = quiet(mref.integrate, np.array(case["grid"], float))
+                    sensitive_cont = err2 is None and bool(np.all(np.isfinite(sol2))) and not np.array_equal(np.asarray(sol2, float), sols[0])
+                tags.append("discrete-sampler:" + ("output-depends-on-a-continuous-draw" if sensitive_cont else "different-seed-rule-not-applicable"))
     elif finite:
         mm("schedule:shape", "%d recorded events for %d distribution-valued entries: %s" % (len(body), kk, [b[:2] for b in body[:6]]))
 
@@ -1277,7 +1294,7 @@ def _run_param(case):
                      "signature": sig("full-output-differs"), "detail": "%s vs %s" % (brief(O5.out), brief(O2.snap[0]))})
     O4 = call(mB, case, "A", case["seed2"])
     check_mean(O4, A["entry"], n)
-    if sensitive and finite:
+    if sensitive and finite and sensitive_cont:
         tags.append("different-seed-checked")
         if O4.err is None and O2.err is None and same(O4.out[1], O2.snap[1]):
             viol.append({"what": "two different seeds give identical runs", "signature": sig("different-seed-same"),
